@@ -153,13 +153,35 @@ def dispatch (fileName fileExtension extWithOption : Str) : Nat × Nat × Str :=
   | some (_, k, f, forced) => (k, f, forced.getD fileExtension)
   | none => (Gen.Disk.defaultProcessor.1, Gen.Disk.defaultProcessor.2.1, Gen.Disk.defaultProcessor.2.2.getD fileExtension)
 
+/-- name, extension (stored and with the `,A` option) and path to open, from one source argument -/
+def splitSource (src : Str) : Str × Str × Str × Str :=
+  let dotPos := rfindFrom 46 src (afterLast 47 src)
+  let hasA := upper (src.drop (src.length - 2)) = str ",A"
+  let cleanSrc := if hasA then src.take (src.length - 2) else src
+  match dotPos with
+  | some dp => (basename (upper (src.take dp)), upper (cleanSrc.drop (dp + 1)), upper (src.drop (dp + 1)), cleanSrc)
+  | none => (basename (upper src), [], [], cleanSrc)
+
+/-- body of the loop for a source that is not an end-of-side marker; the Bool tells whether a
+    file was processed (the loop then tests `_hasController()`) -/
+def injFile (w : World) (src : Str) (st : Inj) : Except PyErr (Inj × Bool) :=
+  let (fileName, fileExtension, extWithOption, cleanSrc) := splitSource src
+  match w cleanSrc with
+  | none => .ok ({ st with l := onBeforeBeginOfFile st.l (str "-- not found : " ++ src) }, false)
+  | some data =>
+    if fileName.length > 8 then .ok ({ st with l := onBeforeBeginOfFile st.l (str "-- too long name : " ++ cleanSrc) }, false)
+    else if fileExtension.length > 3 then .ok ({ st with l := onBeforeBeginOfFile st.l (str "-- too long extension : " ++ cleanSrc) }, false)
+    else
+      let (kind, flag, storedExt) := dispatch fileName fileExtension extWithOption
+      match injWriteFile fileName storedExt kind flag data 4 st with
+      | .error e => .error e
+      | .ok st' => .ok (st', true)
+
 /-- the `for src in args.sources` loop -/
 def injLoop (w : World) : List Str → Inj → Except PyErr Inj
   | [], st => .ok st
   | src :: rest, st =>
-    let dotPos := rfindFrom 46 src (afterLast 47 src)
-    let fileName0 := basename (upper src)
-    if fileName0 = str "--EOS" then
+    if basename (upper src) = str "--EOS" then
       match usageOfSide st.img st.cur with
       | .error e => .error e
       | .ok u =>
@@ -168,21 +190,9 @@ def injLoop (w : World) : List Str → Inj → Except PyErr Inj
         if cur ≥ 4 then .ok { st with cur := cur, l := l }
         else injLoop w rest { st with cur := cur, l := onBeginOfSide l cur }
     else
-      let hasA := upper (src.drop (src.length - 2)) = str ",A"
-      let cleanSrc := if hasA then src.take (src.length - 2) else src
-      match w cleanSrc with
-      | none => injLoop w rest { st with l := onBeforeBeginOfFile st.l (str "-- not found : " ++ src) }
-      | some data =>
-        let (fileName, fileExtension, extWithOption) := match dotPos with
-          | some dp => (basename (upper (src.take dp)), upper (cleanSrc.drop (dp + 1)), upper (src.drop (dp + 1)))
-          | none => (fileName0, [], [])
-        if fileName.length > 8 then injLoop w rest { st with l := onBeforeBeginOfFile st.l (str "-- too long name : " ++ cleanSrc) }
-        else if fileExtension.length > 3 then injLoop w rest { st with l := onBeforeBeginOfFile st.l (str "-- too long extension : " ++ cleanSrc) }
-        else
-          let (kind, flag, storedExt) := dispatch fileName fileExtension extWithOption
-          match injWriteFile fileName storedExt kind flag data 4 st with
-          | .error e => .error e
-          | .ok st' => if st'.cur ≥ 4 then .ok st' else injLoop w rest st'
+      match injFile w src st with
+      | .error e => .error e
+      | .ok (st', processed) => if processed && st'.cur ≥ 4 then .ok st' else injLoop w rest st'
 
 /-- trailing begin/end-of-side events for the sides not reached -/
 def injTail : Nat → Inj → Except PyErr Inj
